@@ -324,6 +324,8 @@ CREATED_PATHS = {   # name -> (path builder, segments as functions of the ORIGIN
     'in-Path': (lambda: Path('new', T[T['key']], 'c'), [lambda t: 'new', lambda t: t['key'], lambda t: 'c']),
     'Spec-key': (lambda: T['new'][Spec('key')]['c'], [lambda t: 'new', lambda t: t['key'], lambda t: 'c']),
     'tuple-key-holding-T': (lambda: T['new'][(T['key'], 2)]['c'], [lambda t: 'new', lambda t: (t['key'], 2), lambda t: 'c']),
+    'Spec-as-Path-part': (lambda: Path('new', Spec('key'), 'c'), [lambda t: 'new', lambda t: t['key'], lambda t: 'c']),
+    'Spec-as-last-Path-part': (lambda: Path('new', Spec('key')), [lambda t: 'new', lambda t: t['key']]),
     'two-dynamic': (lambda: T['new'][T['key']][T['nk']], [lambda t: 'new', lambda t: t['key'], lambda t: t['nk']]),
     'below-list-item': (lambda: T['l'][0][T['key']]['c'], [lambda t: 'l', lambda t: 0, lambda t: t['key'], lambda t: 'c']),
 }
